@@ -11,7 +11,7 @@ _DONE = "(%s - outlen)" % _le("outlen")
 _F0 = _le("g_hfin_n")
 RFC_GEN_LOOP = {
     "assigns": "outlen, out, __CPROVER_object_upto(rng->v, 32), __CPROVER_object_whole(out), g_hfin_n, g_hk_n, g_hk_len, g_hk_byte, "
-               "g_hw_hit, g_hw_byte, g_hf_len, g_hf_cur, g_hf_prev, g_hf_prev2, g_hf_last, g_mc_calls",
+               "g_hw_hit, g_hw_byte, g_hf_len, g_hf_cur, g_hf_prev, g_hf_prev2, g_hf_last",
     "invariants":
         # progress: whole 32-byte rounds done so far, one HMAC computation per round
         "outlen <= %s && (outlen == 0 || %s %% 32 == 0) && out == %s + %s" % (_le("outlen"), _DONE, _le("out"), _DONE) +
@@ -28,13 +28,18 @@ RFC_GEN_LOOP = {
         " && ((verif_oi < %s && verif_oi / 32 == (unsigned long)g_hwe - (unsigned long)%s && verif_oi %% 32 == g_hdk) ==> %s[verif_oi] == g_hf_cur)))" % (_le("outlen"), _F0, _le("out")),
     "decreases": "outlen",
 }
+FR = "harness/C05/hash_frames.c"
+STUB = ["sha256 compression function (verif_compress_frame: arbitrary, reads blocks[0..64n), writes s[0..7])"]
 UNITS = [
     U("C05.sha256_write", ["C05"], "harness/C05/hash_write.c", "h_write", assumed=ORACLE,
-      functions=["secp256k1_sha256_write"], timeout=600, min_obl=1300, unwind=130, replay=False,
-      note="stream lemma: len fully symbolic (<= 2^48), bytes symbolic; compression abstracted by the logging oracle"),
+      functions=["secp256k1_sha256_write"], timeout=600, min_obl=1300, unwind=None, replay=False,
+      note="no --unwind: all loops of the verified code have literal bounds; a data-dependent loop added to sha256_write makes the unit undecided (timeout), never a violation; stream lemma: len fully symbolic (<= 2^48), bytes symbolic; compression abstracted by the logging oracle"),
+    U("C05.sha256_write_b256", ["C05"], "harness/C05/hash_write.c", "h_write", assumed=ORACLE, defs=["MAXLEN=256"], bounded="len<=256",
+      functions=["secp256k1_sha256_write"], timeout=600, min_obl=1300, unwind=66, replay=False,
+      note="same harness with len <= 256 and --unwind 66: stays decidable (and passes) when sha256_write is restructured around a data-dependent loop, e.g. one block per compression call"),
     U("C05.sha256_write_contract", ["C05"], "harness/C05/hash_write.c", "h_write_c", assumed=ORACLE,
-      enforce=["secp256k1_sha256_write"], functions=["secp256k1_sha256_write"], solver="cadical", timeout=600, min_obl=1400, unwind=130, replay=False,
-      note="the stream lemma as a DFCC-enforced contract (hash_spec.h), arbitrary initial log state; consumed by the lemma units"),
+      enforce=["secp256k1_sha256_write"], functions=["secp256k1_sha256_write"], solver="cadical", timeout=600, min_obl=1400, unwind=None, replay=False,
+      note="no --unwind: all loops of the verified code have literal bounds; a data-dependent loop added to sha256_write makes the unit undecided (timeout), never a violation; the stream lemma as a DFCC-enforced contract (hash_spec.h), arbitrary initial log state; consumed by the lemma units"),
     U("C05.sha256_write_split", ["C05"], "harness/C05/hash_write.c", "h_write2", replace=["secp256k1_sha256_write"],
       functions=["secp256k1_sha256_write"], solver="cadical", timeout=600, min_obl=200, unwind=130, replay=False,
       note="two-write lemma over the enforced stream contract: write(a);write(b) has the stream postcondition of write(a||b), all la, lb, bytes"),
@@ -86,7 +91,8 @@ UNITS = [
       closed_by="loop contract on the output loop (engine-supplied --loop-contracts-file, no /repo edit): base, step, decreases",
       note="any outlen (<= 2^34 bytes: the ghost epoch counter is an int), retry symbolic"),
     U("C05.rfc6979_finalize", ["C05"], "harness/C05/hash_rfc6979.c", "h_rfc_finalize",
-      functions=["secp256k1_rfc6979_hmac_sha256_finalize"], timeout=120, min_obl=40, unwind=66, replay=False),
+      functions=["secp256k1_rfc6979_hmac_sha256_finalize"], timeout=120, min_obl=10, unwind=66, replay=False,
+      note="memory safety only: hash.h promises no effect of finalize (it may wipe the generator)"),
     U("C05.sha256_initialize", ["C05"], "harness/C05/hash_init.c", "h_sha_init",
       functions=["secp256k1_sha256_initialize", "secp256k1_sha256_initialize_midstate"], timeout=120, min_obl=110, unwind=66, replay=True),
     U("C05.sha256_vectors", ["C05"], "harness/C05/hash_compress.c", "h_sha_vectors", bounded="concrete vectors",
@@ -99,4 +105,28 @@ UNITS = [
     # U("C05.sha256_compress_fips", ["C05"], "harness/C05/hash_compress.c", "h_compress_fips", solver="cadical", tier="thorough",
     # functions=["secp256k1_sha256_transform_impl"], timeout=1500, min_obl=8, unwind=66, replay=True,
     # note="all 2^768 (state, block) inputs against a FIPS 180-4 spec with a 16-word rolling schedule; see report for the measured outcome"),
+    # ---- enforcement of the contracts other units use instead of the hashing functions (audit item 22); see harness/C05/hash_frames.c
+    U("C05.sha256_core_write", ["C05"], FR, "h_core_write", enforce=["secp256k1_sha256_write"], assumed=STUB,
+      functions=["secp256k1_sha256_write"], timeout=300, min_obl=50, unwind=None, replay=False,
+      note="no --unwind: all loops of the verified code have literal bounds; a data-dependent loop added to sha256_write makes the unit undecided (timeout), never a violation; CORE contract (requires, frame *hash, bytes' = bytes + len) enforced on the real body, len symbolic"),
+    U("C05.sha256_core_finalize", ["C05"], FR, "h_core_finalize", enforce=["secp256k1_sha256_finalize"], assumed=STUB,
+      functions=["secp256k1_sha256_finalize", "secp256k1_sha256_write"], timeout=300, min_obl=50, unwind=66, replay=False,
+      note="CORE contract (frame *hash and out32[0..32) only, every byte count) enforced on the real body"),
+    U("C05.hashlog_write_frame", ["C05"], FR, "h_hl_write", enforce=["hl_write"], assumed=STUB,
+      functions=["secp256k1_sha256_write"], timeout=300, min_obl=50, unwind=None, replay=False,
+      note="no --unwind: all loops of the verified code have literal bounds; a data-dependent loop added to sha256_write makes the unit undecided (timeout), never a violation; contracts/hash_log.h secp256k1_sha256_write contract, verbatim, enforced on ghost bookkeeping + real function"),
+    U("C05.hashlog_finalize_frame", ["C05"], FR, "h_hl_finalize", enforce=["hl_finalize"], assumed=STUB,
+      functions=["secp256k1_sha256_finalize", "secp256k1_sha256_write"], timeout=300, min_obl=50, unwind=66, replay=False,
+      note="contracts/hash_log.h secp256k1_sha256_finalize contract, verbatim, enforced on real function + ghost bookkeeping"),
+    U("C05.shas_write_frame", ["C05"], FR, "h_shas_write", enforce=["shas_write"], assumed=STUB,
+      functions=["secp256k1_sha256_write"], timeout=300, min_obl=50, unwind=None, replay=False, note="no --unwind: all loops of the verified code have literal bounds; a data-dependent loop added to sha256_write makes the unit undecided (timeout), never a violation; hash_spec.h L3 write contract, verbatim"),
+    U("C05.shas_finalize_frame", ["C05"], FR, "h_shas_finalize", enforce=["shas_finalize"], assumed=STUB,
+      functions=["secp256k1_sha256_finalize", "secp256k1_sha256_write"], timeout=300, min_obl=50, unwind=66, replay=False, note="hash_spec.h L3 finalize contract, verbatim"),
+    U("C05.hmacs_init_frame", ["C05"], FR, "h_hmacs_init", enforce=["hmacs_init"], replace=SHA,
+      functions=["secp256k1_hmac_sha256_initialize"], timeout=300, min_obl=50, unwind=66, replay=False,
+      note="hash_spec.h L4 contract, verbatim; SHA calls replaced by the CORE contracts enforced in C05.sha256_core_*"),
+    U("C05.hmacs_write_frame", ["C05"], FR, "h_hmacs_write", enforce=["hmacs_write"], replace=SHA,
+      functions=["secp256k1_hmac_sha256_write"], timeout=300, min_obl=20, unwind=66, replay=False, note="hash_spec.h L4 contract, verbatim"),
+    U("C05.hmacs_finalize_frame", ["C05"], FR, "h_hmacs_finalize", enforce=["hmacs_finalize"], replace=SHA,
+      functions=["secp256k1_hmac_sha256_finalize"], timeout=300, min_obl=20, unwind=66, replay=False, note="hash_spec.h L4 contract, verbatim"),
 ]
